@@ -417,16 +417,20 @@ def run(ctx):
         reps = rng.choice([3, 4])
         inner = [rng.choice([1, 2]) for _ in range(reps)]
         inner[rng.randrange(0, reps - 1)] = 0
+        if k % 4 < 2:
+            inner[0] = 0                       # ... and the FIRST repetition is empty in half of the cases, whatever the seed
         inner[-1] = rng.choice([1, 2])
+        # (the outer replication owns FOUR descriptors: b2, 101000, 031001, c3)
         if k % 2:
-            ids = [a, 102000 + reps, b2, 101000, 31001, c3]
+            ids = [a, 104000 + reps, b2, 101000, 31001, c3]
             counts = inner
         else:
-            ids = [a, 102000, 31001, b2, 101000, 31001, c3]
+            ids = [a, 104000, 31001, b2, 101000, 31001, c3]
             counts = [reps] + inner
         cases.append({'ids': ids, 'version': 33, 'edition': 4, 'nsub': rng.choice([1, 2]), 'compressed': False,
                       'forced': '31001=' + '.'.join(map(str, counts)), 'seed': rng.randrange(1, 2 ** 32), 'maxrep': 3,
-                      'features': {'empty-middle-repetition': 1}, 'shared': True})
+                      'features': {'empty-middle-repetition': 1}, 'shared': True,
+                      'extra_paths': ['%06d' % c3, '/%06d/101000/%06d' % (ids[1], c3), '/%06d > %06d' % (ids[1], c3)]})
     # a delayed replication FACTOR that carries an attribute of its own (a bitmap whose zero bit selects the 031001):
     # a kept composite candidate of a descendant step that is not a match
     for k in range(ctx.n(12, 120)):
@@ -483,6 +487,12 @@ def run(ctx):
         for f in c['features']:
             ctx.dist[f] += 1
         check_message(ctx, case, c['toks'], e[3], 'generated', ctx.n(4, 6), ctx.n(14, 40))
+    # a hand-written stratum none of whose cases reached the comparison is a dead stratum: say so
+    for f in ('repeated-siblings', 'many-siblings-mixed-sign-slices', 'empty-middle-repetition', 'factor-with-attribute',
+              'same-labels-different-bitmaps'):
+        if any(f in c['features'] for c in cases) and not ctx.dist[f]:
+            ctx.violation({'kind': 'harness-generator', 'no_failing_input': True,
+                           'broken': 'stratum %s: no case could be built and encoded' % f})
     files = sorted(glob.glob(os.path.join(lib.REPO, 'tests', 'data', '*.bufr')))
     if not ctx.quick:
         files += sorted(glob.glob(os.path.join(lib.REPO, 'tests', 'benchmark_data', '*.bufr')))
